@@ -335,6 +335,8 @@ s("C14", "array-width-not-compared", DET, "            elif self._input_col_dim 
 s("C14", "raw-x-used-later", DD + "nndvi.py", "        X, _, _ = super()._validate_input(X, None, None)\n\n        super().update(X=X, y_true=None, y_pred=None)\n        test_batch = np.array(X)", "        raw = X\n        X, _, _ = super()._validate_input(X, None, None)\n\n        super().update(X=X, y_true=None, y_pred=None)\n        test_batch = np.array(raw)", "TNT-validate-first")
 s("C14", "columns-as-set", DET, "                if not X.columns.equals(self._input_cols):\n                    raise ValueError(\n                        \"Columns of new data must match with columns of prior data.\"\n                    )\n            ary = X.values.copy()\n        else:\n            ary = copy.copy(X)\n            ary = np.array(ary)\n            if len(ary.shape) <= 1:\n                # only one", "                if set(X.columns) != set(self._input_cols):\n                    raise ValueError(\n                        \"Columns of new data must match with columns of prior data.\"\n                    )\n            ary = X.values.copy()\n        else:\n            ary = copy.copy(X)\n            ary = np.array(ary)\n            if len(ary.shape) <= 1:\n                # only one", "GRD")
 s("C14", "reset-forgets-columns", DET, "        self.samples_since_reset = 0\n        self.drift_state = None\n", "        self.samples_since_reset = 0\n        self.drift_state = None\n        self._input_cols = None\n        self._input_col_dim = None\n", "WR")
+s("C14", "rejected-batch-clears-columns", DET, "        if ary.shape[0] <= 1:\n            raise ValueError(\n                \"Input for batch detectors should contain more than one observation.\"", "        if ary.shape[0] <= 1:\n            if self.total_batches == 0:\n                self._input_cols = None\n                self._input_col_dim = None\n            raise ValueError(\n                \"Input for batch detectors should contain more than one observation.\"", "EXC-commit")
+s("C14", "rejected-sample-clears-width", DET, "        if ary.shape[0] != 1:\n            raise ValueError(\n                \"Input for streaming detectors should contain only one observation.\"\n            )\n        return ary", "        if ary.shape[0] != 1:\n            self._input_col_dim = None\n            raise ValueError(\n                \"Input for streaming detectors should contain only one observation.\"\n            )\n        return ary", "EXC-commit")
 s("C14", "batch-one-row-ok", DET, "        if ary.shape[0] <= 1:\n            raise ValueError(\n                \"Input for batch detectors should contain more than one observation.\"\n            )", "        if ary.shape[0] < 1:\n            raise ValueError(\n                \"Input for batch detectors should contain more than one observation.\"\n            )", "GRD")
 s("C14", "kdq-store-before-validate", DD + "kdq_tree.py", "        X, _, _ = super()._validate_input(X, None, None)\n        StreamingDetector.update(self, X, None, None)\n        ary = copy.deepcopy(X)", "        self._last_input = X\n        X, _, _ = super()._validate_input(X, None, None)\n        StreamingDetector.update(self, X, None, None)\n        ary = copy.deepcopy(X)", ["TNT-validate-first", "EXC-commit"])
 s("C14", "revert-fix-kf4", DD + "cdbd.py", "        if len(np.shape(X)) > 1 and np.shape(X)[1] != 1:\n            raise ValueError(\"CDBD should only be used to monitor 1 variable.\")\n        super().update(X, None, None)", "        if len(X.shape) > 1 and X.shape[1] != 1:\n            raise ValueError(\"CDBD should only be used to monitor 1 variable.\")\n        super().update(X, None, None)", "TNT-validate-first")
@@ -379,6 +381,8 @@ s("C17", "stepd-drift-gt", CO + "stepd.py", "if accuracy_decreased and self._tes
 s("C17", "hdm-alpha-half", HDMF, "                1 - (self.significance / 2), self.reference_n + test_n - 2", "                (self.significance / 2), self.reference_n + test_n - 2", "POL")
 s("C17", "lfr-lower-bound-upper-level", LF, "lb_detect = np.percentile(result_vector, q=detect_level * 100)", "lb_detect = np.percentile(result_vector, q=100 - detect_level * 100)", "POL")
 s("C17", "eddm-drift-ge", CO + "eddm.py", "if self._test_statistic <= self.drift_thresh:", "if self._test_statistic >= self.drift_thresh:", "POL")
+s("C17", "eddm-maximum-held-while-recs-open", CO + "eddm.py", "            if self._max_numerator < curr_numerator:\n", "            if self._retraining_recs[0] is None and self._max_numerator < curr_numerator:\n", "TNT-warning")
+s("C17", "ddm-minimum-held-while-recs-open", CO + "ddm.py", "            <= self._error_rate_min + self._error_std_min\n", "            <= self._error_rate_min + self._error_std_min\n            and self._retraining_recs[0] is None\n", "TNT-warning")
 s("C17", "cusum-alarm-lt", CD + "cusum.py", "                if self._upper_bound[self.samples_since_reset] > self.threshold:\n                    self.drift_state = \"drift\"\n            elif self.direction == \"negative\"", "                if self._upper_bound[self.samples_since_reset] < self.threshold:\n                    self.drift_state = \"drift\"\n            elif self.direction == \"negative\"", "POL")
 s("C17", "ddm-scale-in-minimum", CO + "ddm.py", "            <= self._error_rate_min + self._error_std_min\n", "            <= self._error_rate_min + self.drift_scale * self._error_std_min\n", "TNT-threshold")
 s("C17", "ddm-drift-under-warning", CO + "ddm.py", "        if (\n            self._error_rate + self._error_std\n            >= self._error_rate_min + self.drift_scale * self._error_std\n        ):\n            self.drift_state = \"drift\"\n        elif (\n            self._error_rate + self._error_std\n            >= self._error_rate_min + self.warning_scale * self._error_std\n        ):\n            self.drift_state = \"warning\"", "        if (\n            self._error_rate + self._error_std\n            >= self._error_rate_min + self.warning_scale * self._error_std\n        ) and (\n            self._error_rate + self._error_std\n            >= self._error_rate_min + self.drift_scale * self._error_std\n        ):\n            self.drift_state = \"drift\"\n        elif (\n            self._error_rate + self._error_std\n            >= self._error_rate_min + self.warning_scale * self._error_std\n        ):\n            self.drift_state = \"warning\"", "TNT-warning")
